@@ -23,7 +23,7 @@ def universe():
     nan = float('nan')
     return [None, True, False, 0, 1, -1, 2, 1.0, 2.5, -0.25, float('nan'), float('nan'), np.nan, float('inf'), float('-inf'),
             '', 'a', 'b', 'ab', 'B', D(2020, 1, 1), D(2020, 1, 2, 3), datetime.date(2020, 1, 1), np.int64(1), np.float64(1.0),
-            np.float64('nan'), np.bool_(True), np.float64(2.5),
+            np.float64('nan'), np.bool_(True), np.float64(2.5), 2 ** 53, 2 ** 53 + 1, float(2 ** 53),
             (), (1,), (1, 2), (1.0, 2), ('a', 1), (None,), (nan,), (2, 1), (1, 'a'), (True,), (1, (2, 3)), (1, (2, 4)), (1, [2, 3]),
             [], [1], [1, 2], [2, 1], [[1], [2]], [None, 'a'], [nan, 1], [1, nan],
             {}, {'a': 1}, {'a': 1, 'b': 2}, {'b': 2, 'a': 1}, {'a': 1, 'c': 2}, {'a': 2}, {'a': nan}, {'a': [1, 2]}, {'a': 1.0},
